@@ -118,15 +118,20 @@ class Note:
 class Chord:
     notes: List[Note] = field(default_factory=list)
 
-    def union_sigs(self):
+    def union_sigs(self, rests=False):
+        """The notes of a chord share their signifiers; the rests written among them share theirs, and neither kind takes those
+        of the other (a rest cannot carry a stem or a beam, a note cannot carry the vertical position of a rest)."""
         u = set()
         for n in self.notes:
-            u |= set(n.all_sigs())
+            if bool(n.rest) == rests:
+                u |= set(n.all_sigs())
         return tuple(sorted(u))
 
+    def union_for(self, member):
+        return self.union_sigs(rests=bool(member.rest))
+
     def canonical_ekern(self):
-        u = self.union_sigs()
-        return ' '.join(n.canonical_ekern(u) for n in self.notes)
+        return ' '.join(n.canonical_ekern(self.union_for(n)) for n in self.notes)
 
     def canonical_kern(self):
         return self.canonical_ekern().replace('@', '').replace('·', '')
@@ -140,6 +145,21 @@ class Chord:
 
 # ------------------------------------------------------------------------------------------------------
 DURS = ['1', '2', '4', '8', '16', '32', '64', '4', '4', '8', '2', '0', '00', '3', '6', '12', '24', '3%2', '5%4', '128']
+# numeric edges of the duration field: kernpy keeps the digits as written (probed: every one of these is its own normal form), so a
+# duration is a string of digits, never a number that could be re-formatted, compared or looked up in a table
+RARE_DURS = ['000', '0000', '256', '512', '1024', '48', '96', '7', '9', '10', '20', '40', '100', '112', '04', '008', '010',
+             '99999999999999999999']
+RARE_RATIONAL_DURS = ['3%4', '2%3', '16%3', '4%15', '10%3', '12%10', '1%1', '4%04', '100%99', '3%22']
+P_RARE_DUR = 0.05
+
+
+def rand_dur(rng, allow_rational=True):
+    dur = rng.choice(DURS)
+    if rng.random() < P_RARE_DUR:
+        dur = rng.choice(RARE_DURS + (RARE_RATIONAL_DURS if allow_rational else []))
+    if not allow_rational and '%' in dur:
+        dur = '4'
+    return dur
 
 
 def rand_letters(rng, wide=True):
@@ -157,15 +177,15 @@ def rand_note(rng, *, hostile=0.5, allow_grace=True, allow_acc=True, allow_displ
               allow_sigs=True, allow_rational=True, allow_nodur=True, chord_has_acc=None) -> Note:
     """chord_has_acc: None for a single note; for chord members True/False says whether ANY note of the chord has
     an accidental (display-like signifiers are then forbidden for all members)."""
-    dur = rng.choice(DURS)
-    if not allow_rational and '%' in dur:
-        dur = '4'
+    dur = rand_dur(rng, allow_rational)
     dots = 0
     r = rng.random()
     if r < 0.22:
         dots = 1
     elif r < 0.30:
         dots = 2
+    elif r < 0.32:
+        dots = rng.choice([3, 3, 4])
     grace = ''
     fixed_pre = ''
     if allow_grace and rng.random() < 0.12:
@@ -199,8 +219,8 @@ def rand_note(rng, *, hostile=0.5, allow_grace=True, allow_acc=True, allow_displ
 
 
 def rand_rest(rng, *, hostile=0.5, allow_sigs=True) -> Note:
-    dur = rng.choice(DURS)
-    dots = 1 if rng.random() < 0.2 else 0
+    dur = rand_dur(rng)
+    dots = 1 if rng.random() < 0.2 else (3 if rng.random() < 0.02 else 0)
     sigs = ()
     if allow_sigs and rng.random() < 0.3:
         sigs = tuple(sorted(rng.sample(REST_SIGS, rng.randint(1, 2))))
@@ -219,12 +239,13 @@ def rand_chord(rng, *, hostile=0.5, allow_acc=True, allow_sigs=True, allow_grace
     n = rng.choice(list(sizes))
     has_acc = allow_acc and rng.random() < 0.5
     notes = []
-    with_rest = rng.random() < 0.08   # a rest inside a chord: only in chords without any signifier (they are shared)
-    if with_rest:
-        allow_sigs = False
+    # a rest inside a chord, at any place: it keeps the signifiers written on rests, the notes keep theirs
+    rest_at = {rng.randrange(n)} if rng.random() < 0.10 else set()
+    if rest_at and n >= 3 and rng.random() < 0.3:
+        rest_at.add(rng.randrange(n))
     for i in range(n):
-        if with_rest and i == n - 1:
-            notes.append(rand_rest(rng, hostile=hostile, allow_sigs=False))
+        if i in rest_at:
+            notes.append(rand_rest(rng, hostile=hostile, allow_sigs=allow_sigs))
             continue
         note = rand_note(rng, hostile=hostile, allow_grace=False, allow_acc=has_acc, allow_display=False,
                          max_sigs=max_sigs, allow_sigs=allow_sigs, allow_nodur=False, chord_has_acc=has_acc)
